@@ -221,6 +221,9 @@ def check_case(chk, case, obs, I, salt=0, two_run=True, runner=None):
         if any(b not in allowed or key != "create" or a != {"name": op["pname"]} for b, key, a in obs["log"]):
             fail("routing_exact", {"call": name}, f"create reached a non-provider: {obs['log']}")
 
+    # ---- events: only validated answers are ever broadcast
+    events_monitor(case, obs, called, fail)
+
     # ---- T5a / T6 faults_contained: no ordinary fault makes the core call raise
     if outcome[0] == "raise":
         if valid and not base_hit:
@@ -320,6 +323,38 @@ def check_case(chk, case, obs, I, salt=0, two_run=True, runner=None):
 
     if two_run and name not in MIXER_OPS and len(backends) >= 2:
         noninterference(chk, case, obs, I, salt, runner)
+
+
+def events_monitor(case, obs, called, fail):
+    """Core events (recorded at mopidy.listener.send) against the validated result of the call:
+    an event may only carry the value the call returns after validation, and a discarded
+    backend answer (wrong type, exception, None) is never broadcast."""
+    op, outcome = case["op"], obs["outcome"]
+    name = op["name"]
+    events = obs.get("events")
+    if events is None:
+        return
+    value = outcome[1] if outcome[0] == "ok" else None
+    if name in ("create", "save"):
+        want = [["playlist_changed", {"playlist": value}]] if value and value[0] == "val" and value[1] == "playlist" else []
+    elif name == "delete":
+        if value in (["bool", True], ["bool", False]):
+            want = [["playlist_deleted", {"uri": ["str", op["uri"]]}]] if value[1] else []
+        elif value is None:
+            want = []
+        else:
+            return  # a non-bool answer handed through: the recorded finding bad_answer_discarded {delete}
+    elif name == "pl_refresh":
+        if outcome[0] != "ok":
+            return
+        loaded = any(key == "pl_refresh" and r[0] != "raise" for _, key, r in called)
+        want = [["playlists_loaded", {}]] if loaded else []
+    else:
+        want = []
+    if events != want:
+        bad_payload = any(isinstance(v, list) and v and v[0] == "wrong" for _, kw in events for v in kw.values())
+        fail("events_validated", {"call": name, "unvalidated_payload": bad_payload},
+             f"core.{name} emitted {events}, but its validated result {outcome} warrants {want}")
 
 
 def raw_monitor(chk, case, obs, fail):
